@@ -829,6 +829,8 @@ func (f Float) LaxEqual(other Value) bool {
 		return f == Float(other.AsInt16())
 	case INT8_FLAG:
 		return f == Float(other.AsInt8())
+	case UINT_FLAG:
+		return f == Float(other.AsUInt())
 	case UINT64_FLAG:
 		return f == Float(other.AsInlineUInt64())
 	case UINT32_FLAG:
